@@ -4,6 +4,7 @@ import CatiiProofs.FromArray
 import CatiiProofs.Append
 import CatiiProofs.Filtered
 import CatiiProofs.SetUpdates
+import CatiiProofs.Update
 /-!
 # C06 — index operations track NumPy on the dense array over any history
 
@@ -12,10 +13,11 @@ operation says what the operation does to that array.  **Partial**: the operatio
 far are `copy`, `shift_common()` / `shift_common(v)` (identity on the dense array, for any value
 — frequent, rare or absent), `append(other)` (concatenation, for any pair of common values and any
 row counts incl. 0, while the combined rows fit 32 bits), `filtered(mask, n)` (boolean row selection, any
-mask), the three entry-wise set updates (through the verified kernels of C08) and construction from
+mask), `update(entries)` (cell assignment by any consistent dictionary of cells, incl. cells set to the
+common value), the three entry-wise set updates (through the verified kernels of C08) and construction from
 arrays (C01);
 `history_partial` lifts them to arbitrary finite sequences against a NumPy-side specification
-(`specRun`).  The remaining operations of the property (update, sliced, slices1d, reindexed, collapsed, column_stack, the
+(`specRun`).  The remaining operations of the property (sliced, slices1d, reindexed, collapsed, column_stack, the
 forced queries) are modelled in `CatiiModel/IIndex.lean` statement by statement and are tied to
 the real code by the correspondence harness after **every** step of every generated history,
 with the NumPy reference semantics as the oracle on the real code; their refinement lemmas are
@@ -26,12 +28,14 @@ open Catii.IIdx
 
 /-- operations covered by theorems so far -/
 inductive Op | copy | shift (v : Option Int) | append (other : IIndex) | filtered (mask : List Bool) (newLength : Nat)
+  | update (ents : List (Key × Rows))
 
 def apply (i : IIndex) : Op → M IIndex
   | .copy => pure (IIdx.copy i)
   | .shift v => shiftCommon i v
   | .append o => IIdx.append i o
   | .filtered mask n' => IIdx.filtered i mask n'
+  | .update ents => IIdx.update i ents
 
 def run : IIndex → List Op → M IIndex
   | i, [] => pure i
@@ -50,6 +54,7 @@ def specStep (d : Dense) : Op → Dense
       match (List.range mask.length).find? (fun r => mask.getD r false && rankIn mask r == j) with
       | some r => d.2 r hi
       | none => 0)
+  | .update ents => (d.1, fun r hi => assigned ents r hi (d.2 r hi))
 
 def specRun (d : Dense) (ops : List Op) : Dense := ops.foldl specStep d
 
@@ -59,6 +64,11 @@ def OpsOK (hiShape : List Nat) : Nat → List Op → Prop
   | _, [] => True
   | n, .append o :: ops => WF o ∧ o.shape.drop 1 = hiShape ∧ n + o.nrows ≤ 2^32 ∧ OpsOK hiShape (n + o.nrows) ops
   | n, .filtered mask n' :: ops => mask.length = n ∧ n' = (mask.filter id).length ∧ OpsOK hiShape n' ops
+  | n, .update ents :: ops =>
+    ((∀ e ∈ ents, Kern.SSorted e.2) ∧ (∀ e ∈ ents, ∀ r ∈ e.2, r < n) ∧
+     (∀ e ∈ ents, e.1.length = hiShape.length + 1) ∧ (∀ e ∈ ents, e.1.drop 1 ∈ hiCells hiShape) ∧
+     (∀ e ∈ ents, ∀ f ∈ ents, e.1.drop 1 = f.1.drop 1 → ∀ r, r ∈ e.2 → r ∈ f.2 → val0 e.1 = val0 f.1)) ∧
+    OpsOK hiShape n ops
   | n, _ :: ops => OpsOK hiShape n ops
 
 /-- an index *represents* a dense array -/
@@ -122,6 +132,18 @@ theorem step_refines (i : IIndex) (hiShape : List Nat) (d : Dense) (h : Represen
       simp only
       rw [← hrank, hd' r1 hm0 hi (by rw [hdrop]; exact hhi)]
       exact hd r1 (by rw [← hlen]; exact hr0) hi hhi
+  | update ents =>
+    obtain ⟨⟨h1, h2, h3, h4, h5⟩, _⟩ := hok
+    have ok : UpdateOK i ents := ⟨hw, h1, by rw [hn]; exact h2,
+      by intro e he; rw [h3 e he]; simp [IIndex.ndim, hs], by rw [hdrop]; exact h4, h5⟩
+    obtain ⟨res, hrun, hw', hs', _, hd'⟩ := update_refines ok
+    have : r = res := by
+      have := hr.symm.trans hrun
+      exact Except.ok.inj this
+    subst this
+    refine ⟨hw', hs'.trans hs, fun row hrow hi hhi => ?_⟩
+    simp only [specStep] at hrow ⊢
+    rw [hd' row hi, hd row hrow hi hhi]
 
 /-- **any finite history** of the covered operations: the index reached represents the array NumPy reaches -/
 theorem history_partial (i : IIndex) (hiShape : List Nat) (d : Dense) (h : Represents i hiShape d)
@@ -144,6 +166,7 @@ theorem history_partial (i : IIndex) (hiShape : List Nat) (d : Dense) (h : Repre
         | shift v => trivial
         | append o => exact ⟨hok.1, hok.2.1, hok.2.2.1, trivial⟩
         | filtered mask n' => exact ⟨hok.1, hok.2.1, trivial⟩
+        | update ents => exact ⟨hok.1, trivial⟩
       have hj := step_refines i hiShape d h hnd op hok1 j hs
       have hok2 : OpsOK hiShape (specStep d op).1 ops := by
         cases op with
@@ -153,6 +176,7 @@ theorem history_partial (i : IIndex) (hiShape : List Nat) (d : Dense) (h : Repre
         | filtered mask n' =>
           show OpsOK hiShape (mask.filter id).length ops
           rw [← hok.2.1]; exact hok.2.2
+        | update ents => exact hok.2
       exact ih j (specStep d op) hj hok2 hr
 
 /-- every well-formed index represents its own dense array -/
@@ -174,21 +198,21 @@ theorem union_update_entrywise (i : IIndex) (other : List (Key × Rows)) (h : WF
     (ho : ∀ e ∈ other, Kern.SSorted e.2) :
     ∃ res, unionUpdate i other = .ok res ∧ res.common = i.common ∧ res.shape = i.shape ∧
       ∀ k r, Listed res.entries k r ↔ Listed i.entries k r ∨ Listed other k r := by
-  obtain ⟨res, h1, h2, h3, _, _, h6⟩ := unionUpdate_spec i other h.keys h.sorted ho
+  obtain ⟨res, h1, h2, h3, _, _, _, h6⟩ := unionUpdate_spec i other h.keys h.sorted ho
   exact ⟨res, h1, h2, h3, h6⟩
 
 theorem intersection_update_entrywise (i : IIndex) (other : List (Key × Rows)) (h : WF i)
     (ho : ∀ e ∈ other, Kern.SSorted e.2) (hd : other.Pairwise (fun a b => a.1 ≠ b.1)) :
     ∃ res, intersectionUpdate i other = .ok res ∧ res.common = i.common ∧ res.shape = i.shape ∧
       ∀ k r, Listed res.entries k r ↔ Listed i.entries k r ∧ Listed other k r := by
-  obtain ⟨res, h1, h2, h3, _, _, h6⟩ := intersectionUpdate_spec i other h.keys h.sorted ho hd
+  obtain ⟨res, h1, h2, h3, _, _, _, h6⟩ := intersectionUpdate_spec i other h.keys h.sorted ho hd
   exact ⟨res, h1, h2, h3, h6⟩
 
 theorem difference_update_entrywise (i : IIndex) (other : List (Key × Rows)) (h : WF i)
     (ho : ∀ e ∈ other, Kern.SSorted e.2) :
     ∃ res, differenceUpdate i other = .ok res ∧ res.common = i.common ∧ res.shape = i.shape ∧
       ∀ k r, Listed res.entries k r ↔ Listed i.entries k r ∧ ¬ Listed other k r := by
-  obtain ⟨res, h1, h2, h3, _, _, h6⟩ := differenceUpdate_spec i other h.keys h.sorted ho
+  obtain ⟨res, h1, h2, h3, _, _, _, h6⟩ := differenceUpdate_spec i other h.keys h.sorted ho
   exact ⟨res, h1, h2, h3, h6⟩
 
 /-! Non-vacuity -/
